@@ -19,6 +19,14 @@ theorem seg_append (v : Nat → α) (a n m : Nat) :
     rfl
 end assoc
 
+theorem seg_congr (v v' : Nat → α) (a n : Nat) (h : ∀ k, k ≤ n → v (a+k) = v' (a+k)) :
+    seg op v a n = seg op v' a n := by
+  induction n with
+  | zero => simpa [seg] using h 0 (Nat.le_refl 0)
+  | succ n ih =>
+    simp only [seg]
+    rw [ih (fun k hk => h k (by omega)), show a + n + 1 = a + (n + 1) by omega, h (n+1) (Nat.le_refl _)]
+
 /-- window of length `min p (j+1)` ending at `j` -/
 def W (v : Nat → α) (p j : Nat) : α := seg op v (j + 1 - min p (j+1)) (min p (j+1) - 1)
 
